@@ -6,7 +6,7 @@ from hypothesis import strategies as st
 
 from ECAgent.Core import Model, System
 from vf.engine import Violation, InvalidCase
-from vf.fixtures import check, expect_raises, sized_lists
+from vf.fixtures import check, expect_raises, sized_lists, wone_of
 
 PROPERTY = "C02"
 BUDGET = {"quick": 1600, "thorough": 5000}
@@ -174,10 +174,10 @@ def strategy(tier):
     def system(draw):
         start = draw(st.integers(-6, 10))
         freq = draw(st.sampled_from([1, 1, 2, 2, 3, 4, 5, 6, 17]))
-        end = draw(st.one_of(st.none(), st.none(), st.integers(start - 2, start + 12)))
-        reg = draw(st.one_of(st.just(0), st.just(0), st.integers(0, 12)))
+        end = draw(wone_of(st.none(), st.none(), st.integers(start - 2, start + 12)))
+        reg = draw(wone_of(st.just(0), st.just(0), st.integers(0, 12)))
         return {"start": start, "freq": freq, "end": end, "reg_at": reg}
-    op = st.one_of(st.just({"op": "step"}), st.just({"op": "step"}), st.just({"op": "exec_systems"}),
+    op = wone_of(st.just({"op": "step"}), st.just({"op": "step"}), st.just({"op": "exec_systems"}),
                    st.builds(lambda n: {"op": "stepn", "n": n}, st.integers(1, 5)),
                    st.builds(lambda n: {"op": "stepn", "n": n}, st.integers(2, 5)),
                    st.builds(lambda n: {"op": "bad", "n": n}, st.sampled_from(sorted(BAD))))
